@@ -351,6 +351,16 @@ let eval (op : string) (a : string list) : string =
                  (get "env" m) (get "res" m) with "NORUN" -> "NORUN" | _ -> "ok") in
     ignore all;
     Printf.sprintf "cut=%s hang=%s post=%s lin=%s" (b cut) (b (not hang)) (b post) lin
+  | "batchrd", _ ->
+    let m = kv a in
+    if get "close" m = "" then "own=BAD acct=BAD serve=BAD" else begin
+      let cc = nat (hexi (get "close" m)) in
+      let closed = (get "closed" m = "1") in
+      let res = List.map nat (ints_of (get "res" m)) in
+      let b v = if v then "ok" else "BAD" in
+      Printf.sprintf "own=%s acct=%s serve=%s" (b (mon_batch_own res))
+        (b (mon_batch_acct cc (z_of_hex (get "unread" m)) closed)) (b (mon_batch_serve cc closed res))
+    end
   | "trmeta", _ ->
     let m = kv a in
     if mon_recover (get "meta" m = "1") (get "write" m = "1") (nat (hexi (get "count" m))) then "recover=ok" else "recover=BAD"
